@@ -32,6 +32,8 @@ def main():
     props = [c['property_id'] for c in man['checks']]
     seeds = sorted(os.path.basename(os.path.dirname(p)) for p in glob.glob(os.path.join(VERIF, 'seeded', '*', 'patch.diff')))
     js = None
+    own_only = False
+    merge = None
     i = 0
     while i < len(a):
         if a[i] == '--props':
@@ -40,20 +42,29 @@ def main():
             seeds = a[i + 1].split(','); i += 2
         elif a[i] == '--json':
             js = a[i + 1]; i += 2
+        elif a[i] == '--own':
+            own_only = True; i += 1
+        elif a[i] == '--merge':
+            merge = a[i + 1]; i += 2
         else:
             i += 1
     res = {}
     with ThreadPoolExecutor(max_workers=8) as ex:
-        for seed, out in ex.map(lambda s: one(s, props), seeds):
+        for seed, out in ex.map(lambda s: one(s, [s.split('-')[0]] if own_only else props), seeds):
             res[seed] = out
             hits = [p for p, v in out.items() if isinstance(v, tuple) and v[0] == 1]
             broken = [p for p, v in out.items() if isinstance(v, tuple) and v[0] not in (0, 1)]
             own = seed.split('-')[0]
-            print('%-7s own=%s detected_by=%s%s' % (seed, 'HIT ' if own in hits else ('n/a ' if own not in props else 'MISS'), ','.join(hits) or '-',
+            print('%-7s own=%s detected_by=%s%s' % (seed, 'HIT ' if own in hits else ('n/a ' if own not in out else 'MISS'), ','.join(hits) or '-',
                                                    (' BROKEN=' + ','.join(broken)) if broken else ''), flush=True)
             for p in hits[:2]:
                 print('        %s' % out[p][1][:230])
     if js:
+        if merge and os.path.exists(merge):
+            old = json.load(open(merge))
+            for k, v in res.items():
+                old.setdefault(k, {}).update(v)
+            res = old
         json.dump(res, open(js, 'w'), indent=1)
 
 
